@@ -218,10 +218,22 @@ def specLine (id : String) (c : Case) (bin : String) (rawDigest : String := "-")
   -- "the unit's statistical assumption": from the unit metadata of ALL input files
   let asParts := tabs.map fun t =>
     (((idxOf c.T t, 0, 0) : Nat × Nat × Nat), s!"{idxOf c.T t}={aName (specAssume (cfg.unitOf t))}")
-  s!"spec {id} cells={joinOr (sorted cells)} resw={joinOr (sorted resw)} gmw={joinOr (sorted gmParts)} assume={joinOr (sorted asParts)} stats=ok labels=ok colpos=ok hdrcfg=ok order={specOrder} rawcells={rawDigest} bin={bin}"
+  s!"spec {id} cells={joinOr (sorted cells)} resw={joinOr (sorted resw)} gmw={joinOr (sorted gmParts)} assume={joinOr (sorted asParts)} stats=ok fixed=ok units=ok labels=ok colpos=ok hdrcfg=ok order={specOrder} rawcells={rawDigest} bin={bin}"
 
 
 def hexStr (s : String) : String := (Bytes.ofString s).toHex
+
+/-- the residue-warning clause alone (used by the C15 driver) -/
+def reswLine (id : String) (c : Case) : String :=
+  let ms := Spec.Cells.measOf c.res
+  let keys := Spec.Cells.cellKeys ms
+  let ident (k : Key × Key × Key) : Nat × Nat × Nat := (idxOf c.T k.1, idxOf c.R k.2.1, idxOf c.C k.2.2)
+  let resw := keys.filterMap fun k =>
+    let g := Spec.Cells.group ms k.1 k.2.1 k.2.2
+    let fs := Spec.Cells.residueFields c.zf (g.map (·.residue))
+    let i := ident k
+    if fs.isEmpty then none else some (i, s!"{i.1}.{i.2.1}.{i.2.2}={"+".intercalate (fs.map Bytes.toHex)}")
+  s!"spec {id} resw={joinOr ((resw.foldr insTriple []).map (·.2))}"
 
 /-! ### second pass: keys and key order from the RAW results, by the C08/C09 model -/
 
